@@ -36,14 +36,6 @@ def gen_cases(ctx, n, full_every=6):
             perm = list(range(k))
             rng.shuffle(perm)
             g["indict"]["dynamics"] = [g["indict"]["dynamics"][p] for p in perm]
-        if shape == "time_dependent" and rng.random() < 0.5:
-            # same system with the time variable renamed through the documented option
-            nm = rng.choice(["s", "time", "tt"])
-            import re as _re
-            for d in g["indict"]["dynamics"]:
-                lhs, rhs = d["expression"].split("=")
-                d["expression"] = lhs + "=" + _re.sub(r"(?<![A-Za-z0-9_])t(?![A-Za-z0-9_])", nm, rhs)
-            g["indict"]["options"] = {"input_time_symbol": nm}
         g["stop"] = (i % full_every) != 0
         cases.append(g)
         i += 1
